@@ -2,7 +2,7 @@
 import os, sys, json, subprocess, time, hashlib, shutil, re, glob, threading
 import concurrent.futures as cf
 
-V = "/verif"
+V = os.path.dirname(os.path.dirname(os.path.abspath(__file__)))     # /verif, or a snapshot of it (vp run)
 SPEC = f"{V}/spec"
 BUILD = f"{V}/build"
 HARNESS = f"{V}/harness"
